@@ -731,14 +731,16 @@ def c07_family(tier, rnd):
             DICT([("class", NONE), ("title", S("h")), ("checked", I(0))]),
             DICT([("CLASS", S("b")), ("Checked", B(False)), ("ID", S("h"))])]
     kinds = named + ["{}"]
-    # at most one dictionary per statement: a second one is rejected by the compiler
-    # ("Duplicate attribute name"), which the property does not claim to be valid
+    # (lists of distinct kinds hold at most one dictionary; statements with two dictionaries are added below)
     lists = [(a,) for a in kinds] + [(a, b) for a in kinds for b in kinds if a != b]
     l3 = [(a, b, c) for a in kinds for b in kinds for c in kinds if len({a, b, c}) == 3]
     if quick:
         lists = lists[:6] + rnd.sample(lists[6:], 18)
         l3 = rnd.sample(l3, 10)
     lists += l3
+    # two dictionaries in one statement (each key at most once in the start tag, later sources override earlier ones)
+    d2 = [("{}", "{}")] + [t for n in ("class", "id", "title") for t in (("{}", n, "{}"), (n, "{}", "{}"), ("{}", "{}", n))]
+    lists += d2 if not quick else [d2[0]] + rnd.sample(d2[1:], 4)
     configs = [("html", None, ["checked"]), ("none", set(), []), ("explicit", {"class", "id"}, ["class", "id"])]
     progs = []
     for st in statics:
@@ -1193,6 +1195,24 @@ def c10_family(tier, rnd):
                            Open(name="span", nm="n", sattr=[]), Open(ds="s", name="u", sattr=[]), Text("default"), CLOSE, CLOSE,
                            Text(" !"), CLOSE, CLOSE]
             add(main + lib, al, "T7:%s:%s" % (variant, v), v, main=len(main), libs=[{"from": len(main) + 1, "to": len(main) + len(lib)}])
+    # T9: the target language is an expression evaluated inside the element's own definitions: tal:repeat / tal:define
+    # and i18n:target on one element, the target read from the variable the same element binds
+    for how in ("repeat", "define", "repeat-outer"):
+        for bound in (False, True):
+            al = Alloc(tier)
+            kw = {}
+            if how == "define":
+                kw["define"] = [(False, "x", al.call("define", [S("a"), S("b")]))]
+            else:
+                kw["rep"] = (False, "x", al.call("repeat", [SEQ([S("a"), S("b")]), SEQ([S("c")])]))
+            inner = [Open(name="i", tr="", sattr=[]), Text("item"), CLOSE, Text("m", al.call("content", M))]
+            if how == "repeat-outer":
+                items = [Open(name="ul", sattr=[], **kw), Open(name="li", i18n={"tv": "x"}, sattr=[])] + inner + [CLOSE, CLOSE]
+            else:
+                items = [Open(name="li", i18n={"tv": "x"}, sattr=[], **kw)] + inner + [CLOSE]
+            items += [Open(name="b", tr="", sattr=[]), Text("after"), CLOSE]
+            progs.append(program(items, al.dom, cfg={"_translate_variant": "identity"}, init=({"x": S("p")} if bound else {}),
+                                 fam="C10:T9:%s:%s" % (how, bound)))
     # T8: the translation settings of a subtree that failed under tal:on-error end with it
     for sets in ({"d": "inner"}, {"c": "ic", "t": "fr"}, {"d": "inner", "c": "ic", "t": "de"}):
         for outer in ({}, {"d": "outer"}):
